@@ -35,6 +35,17 @@ def _abs(v):
     return abs(v)
 
 
+# restricted occupations with an explicit alpha-minus-beta vector: open-shell singlet (integer occupations, zero net
+# spin), beta-majority, fractional, and one where the guess and the explicit vector agree
+AMB = [
+    ([2.0, 1.0, 1.0], [0.0, 1.0, -1.0]),
+    ([1.0, 1.0, 0.0], [-1.0, -1.0, 0.0]),
+    ([1.5, 0.5, 0.0], [0.5, 0.5, 0.0]),
+    ([2.0, 1.0, 0.0], [0.0, 1.0, 0.0]),
+    ([2.0, 2.0, 0.0], [0.0, 0.0, 0.0]),
+]
+
+
 def check_orbital_semantics(ctx):
     prog = ctx.prog
     mo = prog.cls("iodata.orbitals.MolecularOrbitals")
@@ -277,7 +288,12 @@ def check_orbital_semantics(ctx):
             ev = fresh()
             a, b = ev.get(r, "occsa"), ev.get(r, "occsb")
             want = _abs(_tot(a) - _tot(b))
-            got = fresh().get(r, "spinpol")
+            try:
+                got = fresh().get(r, "spinpol")
+            except NotSymbolic:
+                if label == "unrestricted":
+                    raise
+                continue  # value-dependent tests on symbolic occupations: the numeric patterns below decide
             if not _eq(got, want):
                 return f"{label}: spinpol = `{got!r}`, expected the absolute difference of the alpha and beta totals `{want!r}`"
         for occs in NUM:
@@ -287,6 +303,18 @@ def check_orbital_semantics(ctx):
             got = fresh().get(r, "spinpol")
             if abs(float(got) - abs(float(np.sum(a) - np.sum(b)))) > 1e-12:
                 return f"occs={occs}: spinpol = {got}, |sum(occsa) - sum(occsb)| = {abs(float(np.sum(a) - np.sum(b)))}"
+        # explicit alpha-minus-beta occupations (numeric): they decide, whatever the integer-occupation guess would say
+        for occs, amb in AMB:
+            r = res(False, occs)
+            r.fields["occs_aminusb"] = np.array(amb, dtype=float)
+            ev = fresh()
+            a, b = ev.get(r, "occsa"), ev.get(r, "occsb")
+            if np.abs(np.asarray(a, dtype=float) - (np.array(occs) + np.array(amb)) / 2).max() > 1e-12 or np.abs(np.asarray(b, dtype=float) - (np.array(occs) - np.array(amb)) / 2).max() > 1e-12:
+                return f"occs={occs}, occs_aminusb={amb}: occsa / occsb are {np.asarray(a).tolist()} / {np.asarray(b).tolist()}, expected (occs +/- occs_aminusb) / 2"
+            got = fresh().get(r, "spinpol")
+            want = abs(float(sum(amb)))
+            if abs(float(got) - want) > 1e-12:
+                return f"occs={occs}, occs_aminusb={amb}: spinpol = {got}, |sum(occsa) - sum(occsb)| = {want} (an explicit occs_aminusb takes precedence over the integer-occupation guess)"
         return None
     obligation("R5", "spinpol = |sum(occsa) - sum(occsb)| for every kind and occupation pattern", W("spinpol"), f)
 
